@@ -333,15 +333,15 @@ theorem read_spec (s : State) (w : Bytes) (h : RInv s w) (n : Nat) (hg : base s 
   by_cases hs : (n : Int) + s.tellg > s.fileSize
   · have hn2 : n' = s.fileSize - s.tellg := by simp only [n', hs, if_true]
     simp only [hs, decide_true, Bool.not_true, Bool.false_and, Bool.false_eq_true, if_false, if_true]
-    have := read_aux s { s with good := false, eof := true, gcount := 0 } w h rfl rfl rfl rfl rfl hg hle
+    have := read_aux s { s with good := false, eof := true, gcount := 0, readDemand := 0 } w h rfl rfl rfl rfl rfl hg hle
       (s.fileSize - s.tellg) (n + 1) (by rw [← hn2]; exact hn')
     simp only [k, hn2]; exact this
   · have hn2 : n' = (n : Int) := by simp only [n', hs, if_false]
     simp only [hs, decide_false, Bool.not_false, Bool.true_and, Bool.false_eq_true, if_false]
     split
-    · have := read_aux s { s with gcount := 0 } w h rfl rfl rfl rfl rfl hg hle (n : Int) (n + 1) (by omega)
+    · have := read_aux s { s with gcount := 0, readDemand := 0 } w h rfl rfl rfl rfl rfl hg hle (n : Int) (n + 1) (by omega)
       simp only [k, hn2]; exact this
-    · have := read_aux s { s with good := true, eof := false, gcount := 0 } w h rfl rfl rfl rfl rfl hg hle (n : Int) (n + 1) (by omega)
+    · have := read_aux s { s with good := true, eof := false, gcount := 0, readDemand := 0 } w h rfl rfl rfl rfl rfl hg hle (n : Int) (n + 1) (by omega)
       simp only [k, hn2]; exact this
 
 theorem rinv_read (s : State) (w : Bytes) (h : RInv s w) (n : Nat) (hg : base s ≤ s.tellg) (hle : s.tellg ≤ s.tellp) :
